@@ -186,7 +186,12 @@ func (g *tagger) hexAddress(name string, w *world) string {
 	names := []string{"registeredERC20", "unregisteredERC20", "coinERC20", "twinERC20", "endpoint", "packet", "staking", "agent", "precompile4", "precompile5", "precompile9",
 		"zero", "module", "eoa"}
 	i := rapid.IntRange(0, len(pool)-1).Draw(g.t, name)
-	g.tag(name + "=" + names[i])
+	switch names[i] {
+	case "registeredERC20", "unregisteredERC20", "coinERC20", "twinERC20", "eoa":
+		g.note(name + "=" + names[i])
+	default:
+		g.tag(name + "=" + names[i])
+	}
 	s := pool[i].Hex()
 	if g.edge(name+".form", 20) {
 		switch g.pick2(name+".form.edge", 3, 3) {
@@ -218,7 +223,11 @@ func (g *tagger) metadata(w *world) banktypes.Metadata {
 	bases := []string{"bcoin", "acoin", "ibc/27394FB092D2ECCD56123C74F36E4C1F926001CEADA9CA97EA622B25F41E5EB2", "nosupply", evmDenom,
 		"aggregate/" + w.tokReg.Hex(), strings.Repeat("b", 128)}
 	bi := rapid.IntRange(0, len(bases)-1).Draw(g.t, "meta.base")
-	g.tag("meta.base=" + []string{"supply", "registered", "ibc", "noSupply", "evmDenom", "aggregateDenom", "len128"}[bi])
+	if bi < 3 {
+		g.note("meta.base=" + []string{"supply", "registered", "ibc"}[bi])
+	} else {
+		g.tag("meta.base=" + []string{"", "", "", "noSupply", "evmDenom", "aggregateDenom", "len128"}[bi])
+	}
 	base := bases[bi]
 	name, symbol := "Coin "+base, "C"
 	if strings.HasPrefix(base, "ibc/") {
@@ -420,7 +429,11 @@ func genProposal(t *rapid.T, w *world, existing map[string]string) genContent {
 			ds := []string{"acoin", "bcoin", "aggregate/" + w.tokReg.Hex(), "nosupply", strings.Repeat("d", 128), "A/B-c", "ab", "A/B:c.d_e-f", ""}
 			i := g.pick2("toggleDenom", 6, 3)
 			tok = ds[i]
-			g.tag("toggle.denom=" + []string{"registeredCoin", "unregistered", "registeredAggregate", "unknown", "len128", "slashDash", "tooShort", "colonDot", "empty"}[i])
+			if i < 3 {
+				g.note("toggle.denom=" + []string{"registeredCoin", "unregistered", "registeredAggregate"}[i])
+			} else {
+				g.tag("toggle.denom=" + []string{"", "", "", "unknown", "len128", "slashDash", "tooShort", "colonDot", "empty"}[i])
+			}
 		} else {
 			tok = g.hexAddress("toggle.token", w)
 		}
